@@ -121,6 +121,7 @@ class FineProgram(netprops.Program):
         r = self.rng
         c = r.random()
         open_ = sorted(k for k, v in self.hands.items() if v)
+        open_ = [k for k in open_ if self.get_handle(*k) is not None]
         if open_ and c < 0.45:
             # something aimed at a channel whose ENDMARKER is in a hand right now
             side, cid = r.choice(open_)
@@ -159,6 +160,14 @@ class FineProgram(netprops.Program):
         # references the channel object: the model's `execFinish` drops the worker-side handle)
         return ops
 
+    def check_alias(self):
+        super().check_alias()
+        # an id re-created (by a transferred channel) while a receiver of the OLD object holds its ENDMARKER: the model
+        # identifies objects by id (`respectsHands`, deliver clause) — such a program is not compared
+        for (side, cid), recs in self.hands.items():
+            if recs and self.get_handle(side, cid) is None:
+                self.tainted = True
+
     def can_drop(self, side, cid):
         # a receiver standing in receive() references the channel object: it is not the last reference
         if self.hands.get((side, cid)):
@@ -177,22 +186,34 @@ class FineProgram(netprops.Program):
 
 def fine_level(ctx, res, prop, nprog):
     execnet = ctx.execnet
-    lines, runs = [], []
-    for i in range(nprog):
-        prng = common.rng_for(ctx.seed, f"{prop}:fine:{i}")
-        rp = FineProgram(execnet, prng, nops=prng.choice([8, 15, 30, 45]), profile={"cut": prng.random() < 0.5})
-        ops, outs, dig = rp.run_random()
-        res.count(("fine",) + tuple(ops), nontrivial=any(o.startswith("rget") for o in ops))
-        for op, out in zip(ops, outs):
-            if op.startswith(("rget", "rfin")):
-                res.stat("fine_%s_%s" % (op.split()[0], out.split()[0]))
-        if rp.error:
-            res.violations.append(dict(case={"ops": " ; ".join(ops)}, what="real gateway pair failed under the fine op program: " + rp.error))
-            continue
-        lines.append("fine.run " + " ; ".join(ops))
-        runs.append((ops, outs, dig))
-    model = ctx.driver.ask(lines)
-    for (ops, outs, dig), m in zip(runs, model):
+
+    def worker(indices):
+        r = common.Result()
+        runs = []
+        for i in indices:
+            prng = common.rng_for(ctx.seed, f"{prop}:fine:{i}")
+            rp = FineProgram(execnet, prng, nops=prng.choice([8, 15, 30, 45]), profile={"cut": prng.random() < 0.5})
+            ops, outs, dig = rp.run_random()
+            r.count(("fine",) + tuple(ops), nontrivial=any(o.startswith("rget") for o in ops))
+            for op, out in zip(ops, outs):
+                if op.startswith(("rget", "rfin")):
+                    r.stat("fine_%s_%s" % (op.split()[0], out.split()[0]))
+            if rp.error:
+                r.violations.append(dict(case={"ops": " ; ".join(ops)}, what="real gateway pair failed under the fine op program: " + rp.error))
+                continue
+            if getattr(rp, "tainted", False):
+                r.stat("fine_excluded_id_recreated_in_hand")
+                continue
+            runs.append((i, ops, outs, dig))
+        return r, runs
+
+    runs = []
+    for part, rr in common.fork_map(nprog, worker):
+        common.merge_results(res, part)
+        runs += rr
+    runs.sort(key=lambda t: t[0])
+    model = ctx.driver.ask(["fine.run " + " ; ".join(ops) for _i, ops, _o, _d in runs])
+    for (_i, ops, outs, dig), m in zip(runs, model):
         impl = " ; ".join(outs) + " | " + (dig or "?") + " | hands=0"
         if impl != m:
             mo = m.split(" | ")[0].split(" ; ")
